@@ -34,6 +34,13 @@ def build(c):
     m, p, x = c["mod"], c["proc"], c["x"]
     path = "std::crypto::hashes::" + m
     pre = ""
+    if m == "seq":
+        body, out = "", []
+        for cl in x["calls"]:
+            body += "  push.%s\n  exec.%s::%s\n" % (".".join(str(w2i(w)) for w in reversed(cl["inw"])), cl["mod"], cl["proc"])
+            out = [w2l(w) for w in cl["out"]] + out
+        src = "use.std::crypto::hashes::sha256\nuse.std::crypto::hashes::blake3\nuse.std::crypto::hashes::keccak256\nbegin\n%send\n" % body
+        return src, [], out
     if m == "sha256" and p == "hash_memory":
         ws = [w2i(w) for w in x["mem"]]
         ws += [0] * ((-len(ws)) % 4)
@@ -127,7 +134,7 @@ def run(tier, replay=None):
         for c, rf, rec, out, res in zip(cases, refs, recs, exps, results):
             ck.traces += 1
             ck.note_case([c["mod"], c["proc"], c["pat"]])
-            procs.add(c["mod"] + "::" + c["proc"])
+            procs.add(c["mod"] + "::" + c["proc"] if c["mod"] != "seq" else "two calls in one context")
             st = out + SENTINELS
             exp = {"ok": "ok", "stack": st + [[0, 0, 0, 0]] * max(0, 16 - len(st))}
             d = expected_vs_actual(exp, res)
